@@ -770,11 +770,8 @@ Section Engine.
     end.
 
   Definition foreach_loop (sp : step) (k : counters) (s : st) : R :=
-    match s_foreach sp with
-    | Some fe => lift (fmt s fe) s (fun v => lift (iter_items v) s (fun items =>
-                 foreach_items sp k items s))
-    | None => (OUnsup, s)
-    end.
+    let fe := match s_foreach sp with Some fe => fe | None => VNone end in
+    lift (fmt s fe) s (fun v => lift (iter_items v) s (fun items => foreach_items sp k items s)).
 
   (** ** [Step.run_foreach_or_conditional] *)
   Definition foreach_or_cond (sp : step) (k : counters) (s : st) : R :=
